@@ -372,3 +372,28 @@ pub proof fn lemma_l_gated(m: LMode, w0: World, steps: Seq<LStep>, i: int, op: F
         lemma_l_gated(m, w0, steps.drop_last(), i, op, a);
     }
 }
+
+// ---- immediacy and re-opening, stated on consecutive calls ----
+/// right after disallow_user(a) / block_user(a) every gated entry point that must vet `a` refuses
+pub proof fn lemma_list_change_immediate(w: World, a: Address, op: FOp)
+    requires op_vets(op, a),
+    ensures
+        //@@ C16:lemma.list_change_takes_effect_immediately
+        !al_gate(disallow_post(w, a), op),
+        !bl_gate(block_post(w, a), op),
+{
+    lemma_disallow(w, a);
+    lemma_block(w, a);
+}
+/// … and after allow_user(a) / unblock_user(a) the gate is open again for `a` and as before for everyone else
+pub proof fn lemma_list_reopens(w: World, a: Address, x: Address)
+    ensures
+        //@@ C16:lemma.gate_reopens_after_relisting
+        is_allowed(allow_post(disallow_post(w, a), a), x) == (x == a || is_allowed(w, x)),
+        is_blocked(unblock_post(block_post(w, a), a), x) == (x != a && is_blocked(w, x)),
+{
+    lemma_disallow(w, a);
+    lemma_allow(disallow_post(w, a), a);
+    lemma_block(w, a);
+    lemma_unblock(block_post(w, a), a);
+}
